@@ -1,0 +1,133 @@
+// Package berlen validates the length fields of BER/DER encoded data before
+// it is handed to a decoder. The ASN.1 decoders used by the ldap and snmp
+// services allocate a buffer of the *declared* length of an element before
+// reading its content, so a few bytes declaring a huge length would exhaust
+// memory (an unrecoverable runtime fatal).
+package berlen
+
+import (
+	"bufio"
+	"errors"
+	"fmt"
+	"io"
+)
+
+var (
+	// ErrTruncated is returned when an element claims more bytes than are present.
+	ErrTruncated = errors.New("berlen: element length exceeds available data")
+	// ErrUnsupported is returned for encodings the services do not need
+	// (indefinite lengths, length fields wider than four bytes).
+	ErrUnsupported = errors.New("berlen: unsupported length encoding")
+)
+
+// header parses identifier and length octets. It returns the header size,
+// the content length and whether the element is constructed.
+func header(data []byte) (hdr int, length int, constructed bool, err error) {
+	if len(data) < 2 {
+		return 0, 0, false, ErrTruncated
+	}
+
+	constructed = data[0]&0x20 != 0
+
+	hdr = 1
+	if data[0]&0x1f == 0x1f {
+		// high tag number form: skip the continuation octets
+		for {
+			if hdr >= len(data) {
+				return 0, 0, false, ErrTruncated
+			}
+			hdr++
+			if data[hdr-1]&0x80 == 0 {
+				break
+			}
+		}
+		if hdr >= len(data) {
+			return 0, 0, false, ErrTruncated
+		}
+	}
+
+	b := data[hdr]
+	hdr++
+
+	if b&0x80 == 0 {
+		return hdr, int(b), constructed, nil
+	}
+
+	n := int(b & 0x7f)
+	if n == 0 || n > 4 {
+		return 0, 0, false, ErrUnsupported
+	}
+	if len(data) < hdr+n {
+		return 0, 0, false, ErrTruncated
+	}
+
+	for _, o := range data[hdr : hdr+n] {
+		length = length<<8 | int(o)
+	}
+	if length < 0 {
+		return 0, 0, false, ErrUnsupported
+	}
+
+	return hdr + n, length, constructed, nil
+}
+
+// Check walks all elements in data (recursively for constructed ones) and
+// fails if any declared length exceeds the bytes actually present.
+func Check(data []byte) error {
+	for len(data) > 0 {
+		hdr, length, constructed, err := header(data)
+		if err != nil {
+			return err
+		}
+
+		if length > len(data)-hdr {
+			return ErrTruncated
+		}
+
+		if constructed {
+			if err := Check(data[hdr : hdr+length]); err != nil {
+				return err
+			}
+		}
+
+		data = data[hdr+length:]
+	}
+
+	return nil
+}
+
+// ReadElement reads exactly one top-level element from r, refusing elements
+// larger than max bytes, and validates the lengths nested inside it.
+func ReadElement(r *bufio.Reader, max int) ([]byte, error) {
+	// identifier + up to 5 length octets for the low tag number form,
+	// a little more for high tag numbers
+	var peeked []byte
+	for n := 2; ; n++ {
+		b, err := r.Peek(n)
+		if err != nil {
+			if err == io.EOF && len(b) > 0 {
+				return nil, io.ErrUnexpectedEOF
+			}
+			return nil, err
+		}
+		peeked = b
+
+		hdr, length, _, err := header(peeked)
+		if err == ErrTruncated && n < 16 {
+			continue
+		} else if err != nil {
+			return nil, err
+		}
+
+		if length > max-hdr {
+			return nil, fmt.Errorf("berlen: element of %d bytes exceeds limit of %d", length, max)
+		}
+
+		data := make([]byte, hdr+length)
+		if _, err := io.ReadFull(r, data); err != nil {
+			return nil, err
+		}
+
+		return data, Check(data)
+	}
+}
